@@ -769,7 +769,13 @@ func Eval(c *core.Ctx, line string) *core.Case {
 	return nil
 }
 
+// add evaluates one generated line.  Every line is a unit of the sharded run (core.Ctx.NextMine): the scenarios are
+// real-time (each waits out its timeouts, a Session.Close sleeps a second) and independent of one another, so the
+// shards of ./check run a third of them each, side by side in separate processes (icmpTable is process-wide).
 func add(c *core.Ctx, class, line string) {
+	if !c.NextMine() {
+		return
+	}
 	if cs := Eval(c, line); cs != nil {
 		cs.Class = class
 		c.Add(*cs)
@@ -875,7 +881,9 @@ func Gen(c *core.Ctx) {
 		add(c, "random", "ping.trace 0 scn="+genScenario(c, 2+c.Rnd.Intn(4)))
 	}
 	n += genMulti(c)
-	c.Res.Extra["traces_validated_against_impl"] = n + 28
+	if c.First() {
+		c.Res.Extra["traces_validated_against_impl"] = n + 28
+	}
 }
 
 var Runner = core.Runner{Gen: Gen, Eval: Eval}
